@@ -2,6 +2,7 @@
 import itertools
 
 import abbr_gen as g
+import c01_lex as lex
 from markup_util import run_cases, canon_cfg
 
 CONFIGS = [{}, {'syntax': 'xml'}, {'options': {'output.selfClosingStyle': 'xhtml'}},
@@ -29,6 +30,8 @@ DEEP_MAX = 200
 MODEL_INDENT_BUDGET = 5000
 DEEP_NESTING = True          # generator class "nesting far deeper than any example" on / off
 INLINE_PARENTS_FULL = True   # generator class "nameless element below EVERY documented inline / mapped parent" on / off
+LEXICAL_CASE = True          # generator class "every spelling of names and class / id / attribute identifiers, side by side" on / off
+NUMBERING_AT_OPERATORS = True   # generator class "numbering tokens in identifiers, directly in front of every operator" on / off
 
 
 def use_documented_inline():
@@ -62,7 +65,8 @@ def gen(ctx):
 
     def add(stmt, cfg):
         abbr = g.render(stmt)
-        exp = g.preorder(g.unroll(g.denote_stmt(stmt)))
+        # names may carry numbering tokens (`h$*3`): their documented values are substituted (c01_lex.subst_name)
+        exp = lex.preorder_numbered(g.unroll(g.denote_stmt(stmt)))
         if (cfg.get('options') or {}).get('output.format', True) and sum(d for d, _ in exp) > MODEL_INDENT_BUDGET:
             # the extracted model spends seconds on the indentation of such an output: implementation + oracle only
             oracle_only.append((abbr, cfg, exp))
@@ -143,6 +147,11 @@ def gen(ctx):
     # nesting far deeper than any hand-written example (chains of `>`, nested groups, long climbs)
     if DEEP_NESTING:
         deep_nesting(ctx, add, names)
+    # where an element's text ends and the operator begins: spellings of names / identifiers, numbering tokens
+    if LEXICAL_CASE:
+        lexical_case(ctx, add)
+    if NUMBERING_AT_OPERATORS:
+        numbering_at_operators(ctx, add, names)
     # random large statements
     n_rand = 1500 if ctx.tier == 'quick' else 40000
 
@@ -310,6 +319,185 @@ def deep_nesting(ctx, add, names):
     ctx.cov['deep_nesting'] = {'statements': k, 'deepest_chain': deepest}
 
 
+def lexical_case(ctx, add):
+    """Element names in every spelling directly followed by every kind of decoration whose identifiers are again spelled
+    in every way: in html/xml/xhtml the element keeps its own name whatever the letter case of the name and of the
+    class / id / attribute / text written after it."""
+    rng = ctx.rng
+    forms = lex.name_forms()
+    idents = lex.IDENT_FORMS
+    ctx.cov['lexical_case'] = {'name_spellings': len(forms), 'identifier_spellings': len(idents)}
+    kinds = [
+        ('.class', lambda i, j: dict(classes=[i])),
+        ('#id', lambda i, j: dict(id=i)),
+        ('.class.class', lambda i, j: dict(classes=[i, j])),
+        ('#id.class', lambda i, j: dict(id=i, classes=[j])),
+        ('.class[attr]', lambda i, j: dict(classes=[i], attrs=[(j, 'v', '')])),
+        ('[attr]', lambda i, j: dict(attrs=[(i, j, '"')])),
+        ('{text}', lambda i, j: dict(text=i)),
+        ('.class{text}', lambda i, j: dict(classes=[i], text=j)),
+        ('.class.class.class', lambda i, j: dict(classes=[i, j, i])),
+    ]
+
+    def deco_el(**kw):
+        i, j = rng.choice(idents), rng.choice(idents)
+        return g.El(name=rng.choice(forms), **dict(rng.choice(kinds)[1](i, j), **kw))
+
+    def frames(x):
+        return [
+            [(x, '')],
+            [(x, '>'), (deco_el(), '+'), (deco_el(), '')],
+            [(deco_el(), '>'), (x, '>'), (deco_el(), '^'), (deco_el(), '')],
+            [(g.Group([(x, '>'), (deco_el(), '')], repeat=2), '+'), (deco_el(), '')],
+            [(deco_el(), '>'), (deco_el(repeat=2), '>'), (x, '^^'), (deco_el(), '')],
+            [(deco_el(), '>'), (g.Group([(deco_el(), '+'), (x, '')]), '+'), (x, '')],
+        ]
+    per_name = 10 if ctx.tier == 'quick' else len(idents)
+    k = 0
+    for nm in forms:
+        for i in (rng.sample(idents, per_name) if per_name < len(idents) else idents):
+            for kname, kind in ([kinds[k % len(kinds)]] if ctx.tier == 'quick' else [kinds[(k + d) % len(kinds)] for d in (0, 3, 6)]):
+                j = idents[(k * 7 + 3) % len(idents)]
+                x = g.El(name=nm, **kind(i, j))
+                if k % 5 == 0:
+                    x.repeat = 2
+                fr = frames(x)
+                add(fr[k % len(fr)], CONFIGS[k % len(CONFIGS)])
+                k += 1
+                ctx.cover('lexical-case:decoration-%s' % kname)
+                ctx.cover('lexical-case:name-%s/ident-%s' % (_case_class(nm), _case_class(i)))
+    # random statements over the same vocabulary, most elements decorated
+    def decorate(rng, el):
+        if rng.random() < 0.75:
+            i, j = rng.choice(idents), rng.choice(idents)
+            for key, val in rng.choice(kinds)[1](i, j).items():
+                setattr(el, key, val)
+    for _ in range(300 if ctx.tier == 'quick' else 3000):
+        cfg = rng.choice(CONFIGS)
+        st = g.rand_stmt(rng, forms, rng.randint(2, 10), max_depth=3, rep_max=3, decorate=decorate)
+        if g.total_copies(g.unroll(g.denote_stmt(st))) > 300:
+            continue
+        g.mark_self_close(st, rng, writes_self_closed_leaves(cfg))
+        add(st, cfg)
+        ctx.cover('lexical-case:random')
+
+
+def _case_class(w):
+    """Spelling class of a name / identifier for the coverage record."""
+    c = w[:1]
+    if not c.isalpha():
+        return 'digit-first' if c.isdigit() else 'dash-first' if c == '-' else 'underscore-first'
+    letters = [ch for ch in w if ch.isalpha()]
+    if all(ch.islower() for ch in letters):
+        return 'lower'
+    if all(ch.isupper() for ch in letters):
+        return 'UPPER'
+    return 'Capitalised' if c.isupper() else 'camelCase'
+
+
+NUM_WORDS = ['n', 'item', 'col', 'Row', 'x-', 'sec']       # alphabetic: a digit written after a token would read as its base
+
+
+def numbering_at_operators(ctx, add, names):
+    """Item-numbering tokens at the end / start / middle of a name, class, id, attribute value or text, directly followed
+    by every operator (`>` `+` `^` `^^` `^^^`, end of group, end of abbreviation, `*N` and then the operator): a `^` is
+    part of a numbering token only directly after `$@`, so the tree is the one the operators denote."""
+    rng = ctx.rng
+    carriers = ['name', 'class', 'id', 'class2', 'attr', 'attr-quoted', 'text']
+    ops = ['>', '+', '^', '^^', '^^^', ')', '']
+
+    def carrier_el(carrier, tok, where, repeat):
+        w = lex.put(rng.choice(NUM_WORDS), tok, where)
+        nm = rng.choice(names)
+        if carrier == 'name':
+            if tok in lex.NUM_PARENT or (tok in lex.NUM_AT and repeat is None):
+                return None          # value not fixed by the documented facts (see c01_lex)
+            return g.El(name=w, repeat=repeat)
+        if carrier == 'class':
+            return g.El(name=nm, classes=[w], repeat=repeat)
+        if carrier == 'class2':
+            return g.El(name=nm if rng.random() < 0.7 else None, id='i', classes=['k', w], repeat=repeat)
+        if carrier == 'id':
+            return g.El(name=nm, id=w, repeat=repeat)
+        if carrier == 'attr':
+            return g.El(name=nm, attrs=[('t', w, '')], repeat=repeat)
+        if carrier == 'attr-quoted':
+            return g.El(name=nm, attrs=[('t', w, rng.choice('"\''))], repeat=repeat)
+        return g.El(name=nm, text=w, repeat=repeat)
+
+    def other(rep=None):
+        return g.El(name=rng.choice(names), repeat=rep)
+
+    def frame(x, op):
+        """Statement with x directly followed by op (`)`: x closes a group; ``: x ends the abbreviation)."""
+        tail = [(other(), '>'), (other(), '')] if rng.random() < 0.5 else [(other(), '')]
+        if op == ')':
+            grp = g.Group([(other(2), '>'), (x, '')], repeat=rng.choice([None, 2]))
+            return [(other(), '>'), (grp, '+')] + tail
+        body = [(x, '')] if op == '' else [(x, op)] + tail
+        which = rng.randrange(3)
+        if which == 0:
+            return [(other(), '>'), (other(2), '>')] + body
+        if which == 1:
+            return [(g.Group([(other(), '>')] + body, repeat=2), '+'), (other(), '')]
+        return [(other(3), '>'), (other(), '>'), (other(), '>')] + body
+
+    k = 0
+    n = 0
+    for tok in lex.NUM_ALL:
+        for carrier in carriers:
+            for op in ops:
+                for where in ('end', 'start', 'mid'):
+                    if where != 'end' and ctx.tier == 'quick' and rng.random() < 0.75:
+                        continue
+                    for repeat in (None, 2):
+                        k += 1
+                        if repeat and carrier != 'name' and ctx.tier == 'quick' and rng.random() < 0.6:
+                            continue
+                        x = carrier_el(carrier, tok, where, repeat)
+                        if x is None or (op.startswith('^') and lex.ends_with_open_modifier(x)):
+                            continue      # `$@` / `$@^` directly before `^`: that `^` is a modifier by the documented reading
+                        st = frame(x, op)
+                        tree = g.unroll(g.denote_stmt(st))
+                        if not lex.numbered_names_ok(tree):
+                            continue
+                        add(st, CONFIGS[k % len(CONFIGS)])
+                        n += 1
+                        ctx.cover('numbering:%s-%s' % (carrier, where))
+                        ctx.cover('numbering:token-%s' % ('plain' if tok in lex.NUM_PLAIN else 'parent' if tok in lex.NUM_PARENT else 'at'))
+                        ctx.cover('numbering:before-%s' % {'': 'end', ')': 'group-end'}.get(op, op))
+                        if repeat:
+                            ctx.cover('numbering:element-with-own-*N')
+    # random statements: numbering tokens anywhere in names / classes / ids / attribute values / text
+    def decorate(rng, el):
+        r = rng.random()
+        tok = rng.choice(lex.NUM_ALL)
+        w = lex.put(rng.choice(NUM_WORDS), tok, rng.choice(['end', 'end', 'start', 'mid']))
+        if r < 0.12:
+            if tok in lex.NUM_PLAIN or (tok in lex.NUM_AT and el.repeat is not None):
+                el.name = w
+        elif r < 0.35:
+            el.classes = [w]
+            if rng.random() < 0.2:
+                el.name = None
+        elif r < 0.45:
+            el.id = w
+        elif r < 0.52:
+            el.attrs = [('t', w, rng.choice(['', '"']))]
+        elif r < 0.58:
+            el.text = w
+    for _ in range(300 if ctx.tier == 'quick' else 3000):
+        cfg = rng.choice(CONFIGS)
+        st = lex.fix_ambiguous(g.rand_stmt(rng, names, rng.randint(2, 12), max_depth=3, rep_max=3, decorate=decorate))
+        tree = g.unroll(g.denote_stmt(st))
+        if g.total_copies(tree) > 300 or not lex.numbered_names_ok(tree):
+            continue
+        add(st, cfg)
+        n += 1
+        ctx.cover('numbering:random')
+    ctx.cov['numbering_statements'] = n
+
+
 def run(ctx):
     ok = ctx.build(['props/C01.vo', 'props/C01String.vo', 'props/C01Expand.vo', 'props/C01Implicit.vo', 'run/MarkupRun.vo'])
     if ok:
@@ -333,6 +521,23 @@ def run(ctx):
                        'formatted outputs whose summed element depth exceeds %d are checked by implementation + oracle only '
                        '(extracted model takes seconds on their indentation; counted in oracle_only_cases), all others also '
                        'through the model; '
+                       'lexical-case: element names in every spelling (lower / UPPER / Capitalised / camelCase / last letter upper; with '
+                       'digits, `-`, `:`, `_`; HTML element names and free words; snippet keys in any letter case left out) directly '
+                       'followed by `.class` / `#id` / several classes / `[attr]` / `{text}` / `/` / `*N` whose identifiers are '
+                       'again spelled in every way (lower, UPPER, Capitalised, camelCase, digit-, dash-, underscore-first): quick = every '
+                       'name spelling x 10 identifier spellings (all pairs of spelling classes, see lexical-case:name-*/ident-*), '
+                       'thorough = all pairs x 3 of the 9 decoration kinds (rotating); as single element, parent, repeated child, group head, before '
+                       'climbs, at a group end; plus random statements over this vocabulary (lexical-case:random); '
+                       'numbering (numbering:*): item-numbering tokens `$` `$$` `$$$` `$@-` `$@N` `$@-N` `$@` `$@^` `$@^^` `$@^-` `$@^N` at the '
+                       'end / start / middle of a name, class, later class, id, unquoted and quoted attribute value, text, with and '
+                       'without an own `*N`, DIRECTLY followed by each of `>` `+` `^` `^^` `^^^` `)` and the end of the abbreviation '
+                       '(all combinations token x carrier x operator at the end position; start / middle sampled in quick), below '
+                       'repeated parents, inside repeated groups, three levels down; plus random statements with tokens anywhere; '
+                       'names with tokens are denoted by the documented numbering (hard-coded in harness/c01_lex.py: count from 1 '
+                       'in the nearest repeated unit, zero padding, @- / @N; 1 outside every repeater); in names only `$`.. and, on '
+                       'elements with an own *N, the @ forms; `$@^` only in classes / ids / values / text, where the tree oracle '
+                       'needs no value; never generated: `$@` or `$@^` directly before a climb (that `^` is a modifier by the '
+                       'documented reading) and tokens in names that number into a snippet key; '
                        'non-trivial = denotes at least two elements; distinct by abbreviation text. Oracle: element tree of '
                        'the output (tag parser) = independent denotation of the AST (inline-ness from the hard-coded documented list). '
                        'Excluded shapes: ")>" (child of a group).' % (DEEP_MAX - 10, DEEP_MAX - 10, MODEL_INDENT_BUDGET))
